@@ -4,8 +4,8 @@ from __future__ import annotations
 from . import c01_check as K
 
 PROP = "C01"
-LEAN_TARGETS = ["Asynkit.Props.C01", "Asynkit.Lemmas.GenEqC01", "Asynkit.Lemmas.GenEqC01W"]
-PROPS_FILES = ["Asynkit/Props/C01.lean", "Asynkit/Lemmas/GenEqC01.lean", "Asynkit/Lemmas/GenEqC01W.lean"]
+LEAN_TARGETS = ["Asynkit.Props.C01", "Asynkit.Lemmas.GenEqC01", "Asynkit.Lemmas.GenEqC01W", "Asynkit.Lemmas.GenEqAbcStd"]
+PROPS_FILES = ["Asynkit/Props/C01.lean", "Asynkit/Lemmas/GenEqC01.lean", "Asynkit/Lemmas/GenEqC01W.lean", "Asynkit/Lemmas/GenEqAbcStd.lean"]
 DRIVERS = ["Eager"]
 THEOREM = "Asynkit.C01.eager_equiv_task"
 TRUSTED = [
@@ -15,6 +15,10 @@ TRUSTED = [
     're-translated from the source on every run (translator/corostart2lean.py -> Gen/CoroStart.lean) and proved '
     "equal to the model's eagerRun / contResume / cancelling transitions (Lemmas/GenEqC01.lean, 15 theorems) and "
     "to the protocol model's CoroStart (Lemmas/GenEqC01W.lean, 15 theorems)",
+    "translated, not trusted (stdlib): the only collections.abc mixin an asynkit class inherits, Coroutine.close for "
+    "_Continuation, is re-translated from _collections_abc.py of the running interpreter on every run (path, sha256 "
+    "and version recorded in Gen/CollectionsAbc.lean; translator/collectionsabc2lean.py also recomputes WHICH mixins are "
+    "inherited from asynkit's sources) and proved to be the models' close rule (Lemmas/GenEqAbcStd.lean, 4 theorems)",
     'hand-written and tied only by the snapshot-by-snapshot correspondence of this run (lean/Drivers/Eager.lean):'
     ' the asyncio half of Asynkit/Model/EagerKernel.lean (Task, Future, ready queue) and the reading of the '
     "generated code's runtime record `Rt` (coro.send/throw/close, future flags, create_task) as that kernel",
